@@ -100,9 +100,7 @@ Definition outcome_ok (m : onconf) (s : schema) (b o t : content) (r : op_obs) :
   let k := k_kind r in
   if k =? 0 then is_merge3_b b o t (k_data r) && canonical (k_data r) && schema_eqb (k_schema r) s
   else if k =? 1 then negb (no_conflict_b b o t) && is_stop m
-  else if k =? 2 then
-    is_merge3_b b o t o
-    || match m with Resolve h => negb (no_conflict_b b o t) && is_resolved_b h b o t o | _ => false end
+  else if k =? 2 then is_merge3_b b o t o
   else if k =? 5 then
     match m with
     | Resolve h => negb (no_conflict_b b o t) && is_resolved_b h b o t (k_data r) && canonical (k_data r) && schema_eqb (k_schema r) s
@@ -112,16 +110,19 @@ Definition outcome_ok (m : onconf) (s : schema) (b o t : content) (r : op_obs) :
     is_abort m && negb (no_conflict_b b o t) && k_restored r && ext_eqb (k_data r) o && canonical (k_data r) && schema_eqb (k_schema r) s
   else false.
 
-(* with a schema change between the three *)
+(* with a schema change between the three: the merge in the merged schema *)
+Definition no_drop_conflict_b (sb so st : schema) (b o t : content) : bool :=
+  forallb (fun k => negb (drop_conflict_at sb so st b o t k)) (keys b ++ keys o ++ keys t).
 Definition soutcome_ok (m : onconf) (sb so st : schema) (b o t : content) (r : op_obs) : bool :=
   let sm := schema_merge sb so st in
   let rb := reshape sb sm b in let ro := reshape so sm o in let rt := reshape st sm t in
+  let okm := no_conflict_b rb ro rt && no_drop_conflict_b sb so st b o t in
   let k := k_kind r in
-  if k =? 0 then sclean sb so st b o t && is_merge3_b rb ro rt (k_data r) && canonical (k_data r) && schema_eqb (k_schema r) sm
-  else if k =? 1 then negb (sclean sb so st b o t) && negb (is_abort m)
-  else if k =? 2 then sclean sb so st b o t && schema_eqb sm so && is_merge3_b rb ro rt o
+  if k =? 0 then okm && is_merge3_b rb ro rt (k_data r) && canonical (k_data r) && schema_eqb (k_schema r) sm
+  else if k =? 1 then negb okm && negb (is_abort m)
+  else if k =? 2 then okm && schema_eqb sm so && is_merge3_b rb ro rt o
   else if k =? 6 then
-    is_abort m && negb (sclean sb so st b o t) && k_restored r && ext_eqb (k_data r) o && canonical (k_data r) && schema_eqb (k_schema r) so
+    is_abort m && negb okm && k_restored r && ext_eqb (k_data r) o && canonical (k_data r) && schema_eqb (k_schema r) so
   else false.
 
 Definition merge_ok (m : onconf) (sb so st : schema) (b o t : content) (r : op_obs) : bool :=
